@@ -44,6 +44,18 @@ CLAIMED = {
         'under a move of the reference surface. A genuine defect (wrong sign passed by Panel.calc_kM) was repaired (fix: ca9efb9).',
    note='As C02; LAPACK eigh trusted for the invariance predicate.',
    technique='Lean 4 proof over regenerated model + translation validation + oracle', ref='4/C04'),
+ 'C10': dict(
+   text='All 24 C tables are re-translated from lib/src/*.c on every run into Lean data and decided COMPLETELY inside the Lean kernel '
+        '(decide +kernel, no native_decide) against the exact Bardell polynomials of the closed formula: function tables (calc_f/fxi/fxixi and '
+        'the calc_vec_* duplicates), 6 full-interval, 6 sub-interval and 5 mapped-argument integral families for all 900 index pairs, all '
+        'monomials, exact zero and flag patterns; Gauss-Legendre nodes/weights n = 2..64 (moments up to 2n-1, decimal and binary64 readings). '
+        'Lifted by once-proved lemmas to values for all arguments/flags (Mathlib interval integrals over R for the full and sub-interval '
+        'families; Gauss exactness on polynomials of degree <= 2n-1); hand model of trapz/Simpson point sets with exactness and area theorems '
+        'for all grid sizes. V: freshly compiled C (ctypes) vs exact oracle vs emitted data.',
+   note='Trusted: Lean kernel, Mathlib, translator ctables.py (validated by V each run), gcc/ctypes for V; floating-point evaluation error of the '
+        'monomial-basis polynomials is outside the theorems; the binomial identity behind the mapped-argument value theorems is not formalised '
+        '(named ..._partial; compared with the oracle instead).',
+   technique='Lean 4 proof (kernel-decided complete tables + lifting lemmas) over model regenerated from C source + translation validation', ref='4/C10'),
  'C11': dict(
    text='Lean models of the C-level field kernels (cfuvw, cfwx, cfwy, cfg, cfstrain; full and w-only) REGENERATED from '
         'clt_bardell_field*.pyx each run as per-point, per-dof increments; theorems: displacements are the Ritz series, slopes are '
@@ -88,6 +100,27 @@ CLAIMED = {
    note='As C02; (Mach^2-1)**0.5 enters the coefficient model as a parameter; conical panels rejected by the code; flow along y has no '
         'curvature term in any kernel (stated).',
    technique='Lean 4 proof over regenerated model + hand model with driver correspondence + oracle', ref='4/C19'),
+ 'C05': dict(
+   text='Hand-written Lean model of the glue of analysis.lb / Panel.lb (request made to the solver incl. the re-capped k, fallback after '
+        'null-column removal, dense path, allocation with the delivered column count, scatter, lambda = -1/mu) with eigsh/eigh as PARAMETERS '
+        'with a recorded contract; theorems for all sizes and requests: every returned (lambda, v) satisfies the full-size equation with '
+        'zeros on removed amplitudes, removed amplitudes = null columns, totality of all three paths (no shape error), requests within '
+        'ARPACK\'s range, mu ascending negative => lambda ascending positive, Cayley selection of the smallest positive multipliers for a '
+        'sub-critical load, uniqueness of the ascending lowest-k list (sparse = dense at contract level), scaling law. Tie: raw solver outputs '
+        'recorded by monkey-patching and fed to the model through the driver; residual/order/agreement/scaling predicates on the implementation; '
+        'solver contract validated per sample. Two genuine defects repaired (shape mismatch, k not re-capped).',
+   note='Trusted: Lean kernel, Mathlib, hand model (tied on explored cases), ARPACK/LAPACK accuracy as recorded contract (validated per sample), '
+        'ConeCyl.lb glue not modelled, rounding not modelled.',
+   technique='Lean 4 proof over hand model with solver as parameter + driver correspondence + predicates', ref='4/C05'),
+ 'C06': dict(
+   text='Same for analysis.freq / Panel.freq: eigs/eig as parameters; exact model of the sort (stable lexsort on round-half-even keys, drop '
+        're <= 1e-6), of the dense null-mass removal and of the reduced_dof take/re-expand; theorems: returned pairs satisfy K v = w^2 M v with '
+        'zeros on removed amplitudes, sort is a permutation ascending in the ROUNDED key, ascending in the true value when keys are > 0.1 apart '
+        '(partial) with a kernel-checked counter-example [3, 7, 10.04, 10.01, 15, 20] (known finding), totality of the sparse path after the '
+        'repair, reduced_dof re-expansion is a right inverse but its dense branch always ends in a shape error (known finding), mass scaling law.',
+   note='As C05. Known findings: C06-sort-by-rounded-key, C06-reduced-dof-shape-mismatch (recorded, not repaired: would reorder existing results / '
+        'intended semantics unknown).',
+   technique='Lean 4 proof over hand model with solver as parameter + driver correspondence + predicates', ref='4/C06'),
  'C07': dict(
    text='Hand models of Panel.calc_fext / PanelAssembly.calc_fext (placement at col0 in any size, constant forces unscaled, '
         'incrementable x inc) and of sparse.solve (null-column removal, solver as parameter, scatter); theorems for ALL force lists, '
@@ -99,6 +132,19 @@ CLAIMED = {
    note='Trusted: Lean kernel, Mathlib, hand model (tied on explored cases), SuperLU as recorded parameter, translator for cfg, '
         'rounding not modelled. StiffPanelBay.calc_fext checked by the predicate only.',
    technique='Lean 4 proof over hand model + regenerated kernel model, driver correspondence, virtual-work oracle', ref='4/C07'),
+ 'C08': dict(
+   text='Pointwise content (one Gauss point) of fkL_num, fkG_num and calc_fint of the flat and cylindrical models REGENERATED from *_num.pyx '
+        'each run; theorems for every state, laminate, geometry and point values: resultants = F x strains, the quadratic strain terms are '
+        'Donnell\'s 1/2 w,x^2 etc. of the whole series, the internal-force integrand is resultants . strain variation (energy gradient), '
+        'kL = Hessian form with the non-linear strain-variation operator, kG = pre-stress Hessian with the resultants of the point (C03 state '
+        'based), kL at the undeformed state = the ANALYTIC kernel read on point values (C14 numeric = analytic), fint(0) = 0, and the flagship: '
+        'for all 9 field pairs x 2 models, fint after adding t x dof B equals fint + t (kL + kG)_AB + t^2 R2 + t^3 R3 identically in t '
+        '(ring identity on the regenerated terms), hence HasDerivAt over the reals: the tangent IS the Jacobian of the internal force. '
+        'V: pieces driven through Gauss-Legendre vs the running kernels; implementation arm: symmetry, fint(0)=0, kT(0)=k0, kT.dc vs the exact '
+        '5-point derivative of the cubic fint, assemblies with connections. One defect repaired (assembly calc_fint raised).',
+   note='As C02; Gauss loops / laminate-table switch / COO book-keeping checked as schema + numerically (V), not proved; exactness of the rule is C10; '
+        'lifting from the point to the Gauss sum is by linearity (not formalised).',
+   technique='Lean 4 proof (ring identities, HasDerivAt) over regenerated model + translation validation + exact finite-difference oracle', ref='4/C08'),
  'C09': dict(
    text='Lean 4 theorems about a hand-written executable state-machine model of _solver_NR (all residual and '
         'line-search histories, all admissible configurations): every reported pair is immediately preceded by a '
